@@ -38,6 +38,7 @@ simulation hypothesis `MacsOk` is a theorem (`TieA.Rx.Full.genOps_ok`, from `C08
 Builder X: the statement is for a frame whose MType is a DOWNLINK type (`hup : e.is_uplink = false`); since the fix
 "uplink-typed frames are ignored" the method returns `NoUpdate` at once for `e.is_uplink = true`
 (`tieA_handle_rx_uplink_typed`) and the model's view of such a buffer is `RxView.garbage`, not `RxView.data`.
+Builder Y: and carrying the session's own DevAddr if it passes the size test (`haddr`); a fitting frame addressed to another device is the early exit `tieA_handle_rx_other_devaddr` (`NoUpdate`, nothing changes; an oversized one ends the Class A procedure whatever its address).
 Abstract: parsing / MIC / decryption of the frame (inputs), the MAC-command iterator (the decoded commands of the
 well-formed prefix), `next_lower_datarate` and the region's methods (the model's).  A buffer the parser rejects:
 `handle_rx_unparsed`.  Proved in `Props/TieA/HandleRx.lean` + `Props/TieA/HandleRxFull.lean` (non-vacuity: the
@@ -47,13 +48,14 @@ theorem tieA_handle_rx_accept
     (rx : Gen.SessionRx.RadioBuffer) (dl : List Gen.SessionRx.Downlink) (maxp snr : Int) (ign : Bool)
     (e : Gen.SessionRx.EncryptedDataPayload)
     (hparse : rx.as_mut_for_read.parse = some e) (hup : e.is_uplink = false)
+    (haddr : ¬ (e.as_bytes.length : Int) > maxp + 5 → e.fhdr.dev_addr = gs.devaddr)
     (hw : TieA.Rx.SessWF gs) (hmax : 0 ≤ maxp ∧ maxp ≤ 255) (hwire : 0 ≤ e.fhdr.fcnt)
     (hdec : ∀ f, Gen.SessionRx.next_fcnt_down gs.fcnt_down e.fhdr.fcnt = some f → e.validate_mic (TieA.Rx.nwkOf gs) f = true →
       ∃ d, rx.as_mut_for_read.decrypt_in_place (some (TieA.Rx.nwkOf gs)) (some (TieA.Rx.appOf gs)) f = some d ∧ TieA.Rx.DecWF TieA.Rx.Full.Stream d) :
     (@Gen.SessionRx.Session.handle_rx RegionState TieA.Rx.Full.genOps D gs rs g rx dl maxp snr ign).bind
         (fun out => (TieA.Rx.respOf out.1).map (fun r => (r, TieA.Rx.sessOf out.2.1, out.2.2.1, TieA.Rx.cfgOf out.2.2.2.1, out.2.2.2.2.2.map TieA.Rx.dlOf)))
       = (sessionHandleRx (TieA.Rx.sessOf gs) (TieA.Rx.cfgOf g) rs (TieA.Rx.dataOf gs e (TieA.Rx.decOf gs rx e)) maxp.toNat snr ign).toOption.map (TieA.Rx.expect dl D) :=
-  TieA.Rx.Full.handle_rx_full D gs rs g rx dl maxp snr ign e hparse hup hw hmax hwire hdec
+  TieA.Rx.Full.handle_rx_full D gs rs g rx dl maxp snr ign e hparse hup haddr hw hmax hwire hdec
 
 /-- builder N — a buffer the data-frame parser rejects: `NoUpdate`, every output is the input -/
 theorem tieA_handle_rx_unparsed [Gen.SessionRx.MacOps RegionState]
@@ -77,10 +79,28 @@ theorem tieA_handle_rx_uplink_typed [Gen.SessionRx.MacOps RegionState]
     Gen.SessionRx.Session.handle_rx D gs rs g rx dl maxp snr ign = some (.NoUpdate, gs, rs, g, rx, dl) :=
   TieA.Rx.handle_rx_uplink_typed D gs rs g rx dl maxp snr ign e hparse hup
 
+/-- builder Y — a buffer the parser accepts as a downlink-typed frame that fits the window's data rate but whose FHDR
+DevAddr differs from the session's (a frame ADDRESSED TO SOMEONE ELSE): `NoUpdate`, every output is the input — whatever
+its wire counter and MIC (also a MIC that verifies under this session's NwkSKey at a fresh counter: two devices
+provisioned with the same keys), for every `ignore_mac` and every `MacOps` instance.  For the model such a buffer is NOT a
+data-frame view (`RxView.garbage`, the reference codec's `g`): `sessionHandleRx` is only ever applied to frames carrying
+the session's own DevAddr (`haddr` of `tieA_handle_rx_accept`).  Without this exit (before the fix) the method never
+compared the address and accepted such a frame: payload delivered, FCntDown advanced. -/
+theorem tieA_handle_rx_other_devaddr [Gen.SessionRx.MacOps RegionState]
+    (D : Int) (gs : Gen.SessionRx.Session) (rs : RegionState) (g : Gen.SessionRx.Configuration)
+    (rx : Gen.SessionRx.RadioBuffer) (dl : List Gen.SessionRx.Downlink) (maxp snr : Int) (ign : Bool)
+    (e : Gen.SessionRx.EncryptedDataPayload)
+    (hparse : rx.as_mut_for_read.parse = some e) (hup : e.is_uplink = false)
+    (hmax : 0 ≤ maxp ∧ maxp ≤ 255) (hfits : ¬ (e.as_bytes.length : Int) > maxp + 5)
+    (haddr : e.fhdr.dev_addr ≠ gs.devaddr) :
+    Gen.SessionRx.Session.handle_rx D gs rs g rx dl maxp snr ign = some (.NoUpdate, gs, rs, g, rx, dl) :=
+  TieA.Rx.handle_rx_other_devaddr D gs rs g rx dl maxp snr ign e hparse hup hmax hfits haddr
+
 /-- builder S: the two former hypotheses are theorems for the regenerated `handle_downlink_macs` -/
 example : @TieA.Rx.NextLowerOk TieA.Rx.Full.genOps ∧ @TieA.Rx.MacsOk TieA.Rx.Full.genOps TieA.Rx.Full.Stream := TieA.Rx.Full.genOps_ok
 
 #print axioms tieA_handle_rx_accept
 #print axioms tieA_handle_rx_unparsed
 #print axioms tieA_handle_rx_uplink_typed
+#print axioms tieA_handle_rx_other_devaddr
 end C05
